@@ -53,7 +53,19 @@ class Collector(ast.NodeVisitor):
         self.sites = []  # (node_index, kind, arg)
 
     def collect(self, tree):
+        # never evaluated / no behaviour: annotations (every module uses `from __future__ import annotations`), logging calls
+        skip = set()
+        for node in ast.walk(tree):
+            for field in ("annotation", "returns"):
+                sub = getattr(node, field, None)
+                if isinstance(sub, ast.AST):
+                    skip.update(id(n) for n in ast.walk(sub))
+            if isinstance(node, ast.Expr) and isinstance(node.value, ast.Call) and isinstance(node.value.func, ast.Attribute) and isinstance(node.value.func.value, ast.Name) \
+                    and node.value.func.value.id in ("logger", "_LOGGER", "logging"):
+                skip.update(id(n) for n in ast.walk(node))
         for i, node in enumerate(ast.walk(tree)):
+            if id(node) in skip:
+                continue
             if isinstance(node, ast.Compare):
                 for k, op in enumerate(node.ops):
                     if type(op) in CMP:
@@ -166,7 +178,7 @@ def judge(worker: int, rel: str, src_mut: str, props, desc, results, wt_root):
     path = Path(wt) / rel
     orig = path.read_text()
     path.write_text(src_mut)
-    rec = {"file": rel, "mutation": desc, "killed_by": None, "suite": None}
+    rec = {"file": rel, "mutation": desc, "killed_by": None, "suite": None, "checks_run": sorted(props)}
     try:
         r = sh(f"/venv/bin/python -c \"import ast,sys; ast.parse(open('{path}').read())\"")
         if r.returncode:
@@ -218,8 +230,14 @@ def main() -> int:
     ap.add_argument("--seed", type=int, default=0)
     ap.add_argument("--files")
     ap.add_argument("--out", default=str(VERIF / "seeded" / "MUTATION_SWEEP.json"))
+    ap.add_argument("--cover-map", help="tools/coverage_map.py output: a mutant is also judged by every check whose workload executes the mutated line")
     args = ap.parse_args()
     amap = anchor_map()
+    cover = json.loads(Path(args.cover_map).read_text())["checks"] if args.cover_map else {}
+
+    def covering(rel, line):
+        return [c for c, files in cover.items() if any(a <= line <= b for a, b in files.get(rel, []))]
+
     files = args.files.split(",") if args.files else sorted(amap)
     rng = random.Random(args.seed)
     work = []
@@ -240,7 +258,8 @@ def main() -> int:
                 continue
             if new_src == ast.unparse(tree) + "\n":
                 continue
-            work.append((rel, new_src, amap.get(rel, []), f"{site[1]} at line {line}"))
+            props = list(dict.fromkeys(amap.get(rel, []) + covering(rel, line)))
+            work.append((rel, new_src, props, f"{site[1]} at line {line}"))
             n += 1
     wt_root = tempfile.mkdtemp(prefix="mutsweep_")
     for w in range(args.jobs):
